@@ -64,6 +64,7 @@ def outcomeName : Outcome → String
   | .internalError => "internalError"
   | .forbidden => "forbidden"
   | .transportRefused => "transportRefused"
+  | .valueRefused => "valueRefused"
   | .upstreamRefused => "upstreamRefused"
   | .forwarded _ _ => "forwarded"
 
